@@ -27,6 +27,10 @@ LEVELS = {}  # pid -> level, filled from MANIFEST
 
 def load_manifest_levels():
     try:
+        LEVELS.update(json.load(open(os.path.join(VERIF, "vlib", "levels.json"))))
+    except Exception:
+        pass
+    try:
         m = json.load(open(os.path.join(VERIF, "MANIFEST.json")))
         for c in m.get("checks", []):
             LEVELS[c["property_id"]] = c["level_claimed"]["category"]
